@@ -359,3 +359,15 @@ def run(ctx):
         dec = decs[rng.randrange(5)]
         w = body if rng.random() < 0.3 else G.tlv({1: 5, 2: 6, 3: 0x64, 4: 6, 5: 7}[dec.op], body)
         check_wire(ctx, M, dec, w, 'random')
+
+
+def replay(ctx, data):
+    """Re-run one recorded case: {'case': {'decoder': name, 'wire': 'hex:..'}}."""
+    from harness.lib.core import unjson
+    decs = {d.name: d for d in build_decoders()}
+    case = unjson(data.get('case', {}))
+    if isinstance(case, dict) and case.get('decoder') in decs and isinstance(case.get('wire'), (bytes, bytearray)):
+        check_wire(ctx, ctx.call, decs[case['decoder']], bytes(case['wire']), 'replay')
+    else:
+        ctx.notes.append('replay file carries no single (decoder, wire) case; full run repeated')
+        run(ctx)
